@@ -223,7 +223,7 @@ def gen_case(rng, root_user, big=False):
             e = {"kind": "file", "data": data, "src": rng.choice(["mem", "disk"])}
         elif r < 0.85:
             tgt = rng.choice([rng.choice(names), "../" + rng.choice(names), rng.choice(names) + "/" + rng.choice(names),
-                              "/nonexistent-c18/x", "./" + rng.choice(names)])
+                              "/nonexistent-c18/x", "./" + rng.choice(names), "."])
             e = {"kind": "sym", "target": tgt}
         elif r < 0.95 or not root_user:
             e = {"kind": "fifo"}
@@ -247,6 +247,8 @@ def gen_case(rng, root_user, big=False):
                 loc = parent + (rng.choice(names) + rng.choice(["", "2"]),)
                 if loc in ents or loc in dirs:
                     continue
+                if any(tuple(o[:len(loc)]) == loc for o in list(ents) + dirs if len(o) > len(loc)):
+                    continue                    # a file cannot sit above another entry of the same set
                 g = dict(f)
                 g["loc"] = loc
                 if rng.random() < 0.15:
@@ -280,6 +282,42 @@ def gen_case(rng, root_user, big=False):
     for _ in range(rng.randint(0, 3)):
         parent = rng.choice(dirs)
         pre.append((parent + (rng.choice(names) + rng.choice(["", ".keep"]),), rng.choice(["file", "dir", "file"])))
+    # state carried across the retry loop of merge_contents: a symlink entry that lands on a live directory
+    # whose <location>/<target> is a directory is swallowed (CannotOverwrite tolerated) and the loop is
+    # re-entered with the same iterator; put such an entry BETWEEN the members of a hard-link group (and
+    # before other entries) so that everything remembered before the restart is needed after it
+    hgroups = {}
+    for idx, e in enumerate(cset):
+        if e["kind"] == "file" and "hl" in e:
+            hgroups.setdefault((e["hl"], e.get("mtime")), []).append(idx)
+    straddle = [g for g in hgroups.values() if len(g) >= 2]
+    if rng.random() < (0.6 if straddle else 0.15):
+        tloc = ("tol%d" % rng.randint(0, 9),)
+        tgt = rng.choice([".", "sub", "./sub", "sub/.."])
+        sym = {"kind": "sym", "target": tgt, "loc": tloc, "mtime": t[0] + 1}
+        if rng.random() < 0.5:
+            sym["uid"], sym["gid"] = (0, 0) if root_user else (os.getuid(), os.getgid())
+        if straddle:
+            g = rng.choice(straddle)
+            pos = rng.randint(g[0] + 1, g[1])          # after the first member, not after the second
+        else:
+            pos = rng.randint(0, len(cset))
+        cset.insert(pos, sym)
+        pre.append((tloc, "dir"))
+        if "sub" in tgt:
+            pre.append((tloc + ("sub",), "dir"))
+    # boundary: names near NAME_MAX.  '<name>#new' needs 4 more bytes, so a live name of 252..255 bytes cannot
+    # be staged (pristine code fails up front with ENAMETOOLONG and leaves the old file alone), 251 still can
+    longable = [e for e in cset if e["kind"] != "dir"]
+    if longable and rng.random() < 0.18:
+        e = rng.choice(longable)
+        oldloc = tuple(e["loc"])
+        n = rng.choice([251, 252, 252, 253, 255])
+        e["loc"] = oldloc[:-1] + ("L" * (n - 3) + "%03d" % n,)
+        pre = [(l, w) for l, w in pre if tuple(l) != oldloc and tuple(l) != oldloc[:-1] + (oldloc[-1] + "#new",)]
+        if rng.random() < 0.85:
+            pre.insert(0, (e["loc"], rng.choice(["same", "file", "file-samedata", "file-setid"]) if e["kind"] == "file"
+                           else rng.choice(["same", "file"])))
     # a good share of cases replaces a live file by one with identical bytes but other metadata
     # (or identical metadata but other bytes): the shapes an "unchanged, skip the copy" shortcut hits
     files = [e for e in cset if e["kind"] == "file"]
